@@ -296,6 +296,8 @@ class Report:
                     self.known_lines.append(line)
                     print(line, flush=True)
                 return False
+        if len(self.violations) >= 5:      # enough replays; keep counting
+            self.violations.append(None); return True
         d = os.path.join(VERIF, 'replays', self.prop)
         os.makedirs(d, exist_ok=True)
         path = os.path.join(d, '%d-%d.json' % (self.seed, len(self.violations)))
@@ -351,3 +353,19 @@ def build_k2(out, variant='nothread', lib=None):
     if lib is None:
         lib = build_lib(out, variant)
     return build_bin(out, variant, 'k2', ['k2.c'], lib, extra_ld=['-Wl,--wrap=ldb_versions_apply'])
+
+K3_WRAPS = ['open', 'close', 'write', 'read', 'pread', 'mmap', 'fsync', 'fdatasync', 'rename', 'unlink', 'mkdir', 'link']
+def build_k3(out, variant='nothread', lib=None):
+    """k2.c with the libc interposition of harness/iowrap.h (tie K3)."""
+    if lib is None:
+        lib = build_lib(out, variant)
+    cc, cflags, defs = VARIANTS[variant]
+    exe = os.path.join(out, variant, 'k3')
+    cmd = [cc, '-w'] + cflags + defs + [HOOK_DEFINE, '-DK3', '-U_FORTIFY_SOURCE',
+          '-I' + os.path.join(REPO, 'include'), '-I' + os.path.join(REPO, 'src'), '-I' + os.path.join(VERIF, 'harness'),
+          os.path.join(VERIF, 'harness', 'k2.c'), lib, '-Wl,--wrap=ldb_versions_apply'] + \
+          ['-Wl,--wrap=' + w for w in K3_WRAPS] + ['-lpthread', '-lm', '-o', exe]
+    r = subprocess.run(cmd, capture_output=True, text=True)
+    if r.returncode != 0:
+        raise BuildError('k3 build failed:\n' + r.stderr[-3000:])
+    return exe
